@@ -34,6 +34,8 @@ PROFILES = {
                        state_internal=0.5, sm_internal=0.0, completion=0.3, flags=0.5, internal_row=0.15, row_budget=16),
     'copy': dict(depth=(1, 3), regions=(1, 2), completion=0.3, history=0.6, pseudo=0.5, row_budget=11, state_internal=0.2, sm_internal=0.0,
                  deferral=0.4, scripts=True),
+    'serial': dict(depth=(1, 3), regions=(1, 3), history=0.7, pseudo=0.3, completion=0.2, row_budget=11, state_internal=0.2, sm_internal=0.0,
+                   serialize=True),
     'flags': dict(flags=1.0, depth=(1, 3), state_internal=0.0, sm_internal=0.0, scripts=True),
     'policy_after_entry': dict(policy='after_entry', flags=0.7, depth=(1, 3), pseudo=0.3, row_budget=12, state_internal=0.2, sm_internal=0.0, scripts=True),
     'policy_after_action': dict(policy='after_action', flags=0.7, depth=(1, 3), pseudo=0.3, row_budget=12, state_internal=0.2, sm_internal=0.0, scripts=True),
@@ -229,6 +231,13 @@ class Gen:
             self.add_pseudo(sp)
         if p['deferral'] > 0 and self.r.random() < p['deferral'] and (p['deferral'] >= 1.0 or len(sp['root']['regions']) == 1):
             self.add_deferral(sp)
+        if p['serialize']:
+            for name, st, m in S.all_states(sp):
+                if st['kind'] == 'sub':
+                    st['machine']['serialize'] = self.r.random() < 0.6
+                else:
+                    st['serialize'] = self.r.random() < 0.6
+            root['serialize'] = self.r.random() < 0.7
         sp['nguards'] = min(self.natom, MAX_ATOMS)
         sp['nactions'] = self.nact
         sp['features']['sm_internal'] = any(m.get('internal') for m, _ in S.machines(sp))
